@@ -441,9 +441,10 @@ def rule_serial(ctx):
     cmps = [norm_src(n) for n in own_nodes(i2d) if isinstance(n, ast.Compare)]
     rets = [norm_src(n.value) for n in own_nodes(i2d)
             if isinstance(n, ast.Return) and n.value is not None]
-    ok2 = any(c.startswith('%d < serial_number' % piv) for c in cmps) and \
-        'serial_number == %d' % piv in cmps and '(1900, 2, 29)' in rets and \
-        'serial_number == 0' in cmps and '(1900, 1, 0)' in rets
+    sn_ = i2d.params[0] if i2d.params else 'serial_number'
+    ok2 = any(c.startswith('%d < %s' % (piv, sn_)) for c in cmps) and \
+        '%s == %d' % (sn_, piv) in cmps and '(1900, 2, 29)' in rets and \
+        '%s == 0' % sn_ in cmps and '(1900, 1, 0)' in rets
     if ok2:
         rr.ok('_int2date: >%d shifts back by one, ==%d -> 1900-02-29, 0 -> '
               '1900-01-00' % (piv, piv), DATE)
